@@ -2,7 +2,7 @@
   C18 -- toolbox colour spaces.
 
   What is proven here (kernel-checked, all inputs):
-    * the translated 8-bit ycbcr_601 -> rgb formulas always land in [0,255] (`C18_ycbcr_range`), map the nominal black and
+    * the translated 8-bit ycbcr_601 -> rgb formulas are the documented ones (`C18_ycbcr_closed`), always land in [0,255] (`C18_ycbcr_range`), map the nominal black and
       white (16,128,128) / (235,128,128) to (0,0,0) / (255,255,255), and are monotone in y;
     * over exact rationals the hsv -> rgb case split treats hue 1 as hue 0 (`C18_hue_periodic`), every hue selects one
       of the six handled sectors (`C18_hue_sector`), greys ignore the hue (`C18_grey_ignores_hue`);
@@ -29,6 +29,15 @@ open GilVerif.Gen.C18 GilVerif.Model.C18
 theorem C18_ycbcr_range (y cb cr : Int) :
     0 ≤ ycbcr601_red y cb cr ∧ ycbcr601_red y cb cr ≤ 255 ∧ 0 ≤ ycbcr601_green y cb cr ∧ ycbcr601_green y cb cr ≤ 255
     ∧ 0 ≤ ycbcr601_blue y cb cr ∧ ycbcr601_blue y cb cr ≤ 255 := by
+  unfold ycbcr601_red ycbcr601_green ycbcr601_blue
+  simp only []
+  omega
+
+/-- the translated formulas are the documented BT.601 integer formulas (298/409/100/208/516, +128, >>8, clamped) -/
+theorem C18_ycbcr_closed (y cb cr : Int) :
+    ycbcr601_red y cb cr = max 0 (min 255 ((298 * (y - 16) + 409 * (cr - 128) + 128) / 256))
+    ∧ ycbcr601_green y cb cr = max 0 (min 255 ((298 * (y - 16) - 100 * (cb - 128) - 208 * (cr - 128) + 128) / 256))
+    ∧ ycbcr601_blue y cb cr = max 0 (min 255 ((298 * (y - 16) + 516 * (cb - 128) + 128) / 256)) := by
   unfold ycbcr601_red ycbcr601_green ycbcr601_blue
   simp only []
   omega
